@@ -5,10 +5,12 @@ CONSTANTS
   States = {"P", "R", "S", "F"}
   Needs = {1, 2, 4}
   MaxHold = 2
+  EnableOut = TRUE
   EnableCons = TRUE
   UseMin = FALSE
   FlagProducerOnEdgeLoss = TRUE
 INVARIANT CacheExactSafe
 INVARIANT CacheExactAfter
+INVARIANT CacheExactReady
 INVARIANT TreeWellFormed
 CHECK_DEADLOCK FALSE
